@@ -63,7 +63,7 @@ func loadKnown() *KnownFindings {
 // all still be generated.
 func contractLevel(kind string) bool {
 	switch kind {
-	case "ensures", "lemma", "decreases", "refines":
+	case "ensures", "lemma", "decreases", "refines", "assert":
 		return true
 	}
 	return strings.HasPrefix(kind, "invariant")
